@@ -6,6 +6,7 @@ repository is read through `Ctx` (python sources via `ast`, XML via
 """
 import ast
 import hashlib
+import re
 import json
 import os
 import sys
@@ -354,6 +355,34 @@ def load_known():
 # running a property
 # ---------------------------------------------------------------------------
 
+def _undecidable_here(ctx, o):
+    """name of an unexpanded helper called in the function where the failed obligation `o` is located, or None"""
+    from . import absint
+    if not absint.OPAQUE_NAMES:
+        return None
+    m = re.match(r'^pyx12/(.+)\.py:(\d+)$', str(o.where))
+    if not m:
+        return None
+    modname, line = m.group(1).replace('/', '.'), int(m.group(2))
+    try:
+        tree = ctx.mod(modname).tree
+    except AnalysisError:
+        return None
+    best = None
+    for f in ast.walk(tree):
+        if isinstance(f, ast.FunctionDef) and f.lineno <= line <= (getattr(f, 'end_lineno', None) or f.lineno):
+            if best is None or f.lineno >= best.lineno:
+                best = f
+    if best is None:
+        return None
+    for c in ast.walk(best):
+        if isinstance(c, ast.Call):
+            nm = c.func.attr if isinstance(c.func, ast.Attribute) else (c.func.id if isinstance(c.func, ast.Name) else None)
+            if nm in absint.OPAQUE_NAMES:
+                return nm
+    return None
+
+
 def run_property(pid, rules, meta, ctx, only=None, out=sys.stdout, seed=0, write_evidence=True,
                  evidence_dir=None, extra=None, dump_fails=False):
     """Run all rules of property `pid`.  Returns exit code 0/1/2."""
@@ -407,6 +436,17 @@ def run_property(pid, rules, meta, ctx, only=None, out=sys.stdout, seed=0, write
             knowns.append(o)
         else:
             viols.append(o)
+    # a failed obligation located in a function that hands part of its work to a helper the normal form could not expand in
+    # place (a class with state, a nested function, a generator ...) was judged on half of the code: undecided, not violated
+    if viols and not os.environ.get('SA_NO_DEMOTE'):
+        kept = []
+        for o in viols:
+            hid = _undecidable_here(ctx, o)
+            if hid:
+                errors.append('%s: [%s] cannot be judged at %s: part of the work is done in %s(), which could not be expanded in place' % (o.rule, o.key, o.where, hid))
+            else:
+                kept.append(o)
+        viols = kept
     if dump_fails:
         for o in fails:
             out.write('FAIL ' + json.dumps({'property': pid, 'rule': o.rule, 'key': o.key, 'what': o.msg, 'status': 'known'}) + '\n')
